@@ -1,7 +1,7 @@
 (* tok layer (C19): tok <ms> <script> <rseed> <objs> <bodies>   (formats: see harness/src/l_tok.rs) *)
 open Util
 
-type okind = KChan | KSem | KMutex | KRw of BinNums.coq_N | KNotify | KOneshot | KWatch
+type okind = KChan | KSem | KMutex | KRw of BinNums.coq_N | KNotify | KOneshot | KWatch | KOnceCell
 
 let usize_max_shr3 = n_of_string "2305843009213693951"
 let clock0 = [BinNums.N0]
@@ -30,6 +30,7 @@ let parse_objs (s : string) : (okind * int) list * Objects.obj list =
         (KRw k, [TokOps.tok_sem_new k clock0])
       | 'n' -> (KNotify, [TokNotify.notify_new])
       | 'o' -> (KOneshot, [TokNotify.oneshot_new])
+      | 'x' -> (KOnceCell, Tok.oc_new)
       | 'h' ->
         (match String.split_on_char ':' rest with
          | [init; ntx; nrx] ->
@@ -114,6 +115,10 @@ let parse_op (kinds : (okind * int) list) (w : string) : Tok.top =
   | "mg" -> (match fst (kind_of 0) with KSem -> Tok.TMerge (ob 0) | _ -> Tok.TMerge nowhere)
   | "sp" -> (match fst (kind_of 0) with KSem -> Tok.TSplit (ob 0, n_of_string (arg 1)) | _ -> Tok.TSplit (nowhere, n_of_string (arg 1)))
   | "oi" -> Tok.TOsIsClosed (ob 0)
+  | "xs" -> Tok.TOcSet (ob 0, n_of_string (arg 1))
+  | "xg" -> Tok.TOcGet (ob 0)
+  | "xi" -> Tok.TOcInit (ob 0, n_of_string (arg 1), nat 2, true)
+  | "xt" -> Tok.TOcInit (ob 0, n_of_string (arg 1), nat 2, ai 3 = 1)
   | _ -> failwith ("bad op " ^ w)
 
 let parse_bodies kinds (s : string) : Tok.top list list =
